@@ -133,7 +133,7 @@ func fetchOutcome(r *Res, s Settings) (attempts int, ok bool) {
 			return s.MaxRetry + 1, false
 		}
 	}
-	if (r.Kind == "status" && retried(r.Status)) || (r.FailFirst == -1 && retried(r.FailKind)) {
+	if (r.Kind == "status" && (retried(r.Status) || (r.Status == 403 && r.Challenge))) || (r.FailFirst == -1 && retried(r.FailKind)) {
 		return s.MaxRetry + 1, false
 	}
 	if r.FailFirst > 0 && retried(r.FailKind) {
@@ -226,7 +226,7 @@ func Reference(site Site, s Settings, sp SeedPlan, seen SeenStore) Expect {
 		// fetch + post-process
 		var next []refNode
 		for _, n := range todo {
-			r := site[n.url]
+			r := site.Get(n.url)
 			att, ok := fetchOutcome(r, s)
 			add(n.url, att)
 			if att > 1 {
